@@ -11,6 +11,11 @@ CHECKS = {
          "The edge set is discovered by rustc (autoref-specialisation probe per ordered type pair, 34-node D65 graph, 21-node cylindrical graph, D50, DCI and seven CIE-only white-point graphs, f32 and f64), so no pair is forgotten. For every node and every value of its lattice (nominal range incl. every threshold of the conversion code, plus images of an RGB grid) all cycles A->B->A must return the original colour, every stepwise path A->M->B (A->M1->M2->B) must agree with the direct edge, for every target that can represent the colour, and the Alpha forms of every edge must give bit-identical colour and untouched / maximal alpha. The verdict is bounded by the lattice; within it, every path of the stated lengths is explored.",
          "Same-colour is decided in linear-light XYZ through a shared f64 reference map used as a metric (tolerance 4e-6 f64, 1e-4 f32, 1e-3 for f32 paths through Okhsl/Okhsv/Okhwb); gamut-bounded targets only participate for colours inside their gamut; values between lattice points are not explored. Five genuine defects are recorded as known findings (blue-cusp discontinuity, direct-matrix vs M1 inconsistency, near-white Okhsl).",
          "§4 C01"),
+ "C02": ("model_checking",
+         "exhaustive enumeration of (conversion edge x in-range lattice value) over the compiler-discovered conversion graph on the real code, each result compared with an independent f64 reference model of the published definition; matrices compared entry by entry with matrices derived from primaries and white point",
+         "Every discovered FromColorUnclamped edge of 19 configurations (white point x f32/f64; 34-node D65 graph etc.) is executed on every value of a lattice of the source type's nominal range that contains every threshold of the conversion code (kappa/epsilon knee of L*, transfer-function knees, hue sector edges, the 0.8 knee of Okhsl) plus the images of a 9^3 / 17^3 RGB grid, and compared in linear-light XYZ with reference models written from CIE 15, the RGB standards, the geometric HSV/HSL/HWB definitions, Ottosson's Oklab/Okhsl/Okhsv/Okhwb and HSLuv rev 4. The RGB<->XYZ matrices, primaries and white points of the 7 RGB spaces are compared with Lindbloom's derivation. The reference itself is validated in every run against published data (Ottosson's table, all 4096 rows of the HSLuv data set, the CIE 15 table); disagreement there is a machinery failure, not a verdict.",
+         "The reference models are my transcriptions of the publications (validated against published data in-run); agreement is measured in XYZ with tolerance 1e-5 (f64) / 1e-4 (f32) / 1e-3 (f32 through Okhsl/Okhsv/Okhwb); either published Oklab matrix set is accepted; values between lattice points are not explored.",
+         "§4 C02"),
  "C05": ("model_checking",
          "exhaustive enumeration of the complete f32 input space (2^32 bit patterns walked as a successor chain) and of every code, on the real encoders/decoders, against a closed-form reference model",
          "Every one of the 2^32 f32 bit patterns (and its f64 widening, plus 51 doubles around each code transition) is run through each integer fast path (sRGB, Rec OETF, Adobe, P3 gamma u8; ProPhoto u16) with the table index asserted in range by the palette_verif hook; monotonicity is checked on every successor pair, saturation at both ends, the 0.6-code accuracy bound at both ends of every run of equal codes (sufficient by monotonicity of both curves), every decoder code against the closed form, decode->encode identity for every code, and the generic float curves on f32/f64 chains with complete windows round every knee. The integer-path verdict is not bounded: the space is complete.",
